@@ -26,6 +26,8 @@ func replay(e *env) {
 			msg = e.replayEncoding(&c)
 		case "proposable":
 			msg = e.replayBlock(&c)
+		case "proposable-attr":
+			msg = e.replayAttrBlock(&c)
 		default:
 			fmt.Println("unknown sub-check in replay:", c.Sub)
 			os.Exit(3)
@@ -176,4 +178,31 @@ func (e *env) replayBlock(c *caseRec) string {
 		out = append(out, k+": "+f.Detail.Note)
 	}
 	return strings.Join(out, "; ")
+}
+
+func (e *env) replayAttrBlock(c *caseRec) string {
+	st := e.state(c.State)
+	if st == nil {
+		return "harness: unknown state " + c.State
+	}
+	cb := []sigShape{{}}
+	if c.Shape == "sig+2of3" {
+		cb = append(cb, sigShape{2, 3})
+	}
+	for _, m := range attrMixes(true) {
+		if m.Name != c.Rule {
+			continue
+		}
+		sub := newFindings()
+		old := e.f
+		e.f = sub
+		e.attrBlockCase(st, m, cb, c.Order)
+		e.f = old
+		var out []string
+		for k, f := range sub.m {
+			out = append(out, k+": "+f.Detail.Note)
+		}
+		return strings.Join(out, "; ")
+	}
+	return "harness: unknown attribute shape " + c.Rule
 }
